@@ -93,7 +93,10 @@ uint64_t vh_total(int tier)
 }
 
 static const char* LETTERS[MAXK] = {"ACGT", "CATG", "GTAC", "TGCA"};
-static const char* NAMES[MAXK] = {"alpha", "beta", "gamma", "delta"};
+static const char* NAMES_A[MAXK] = {"alpha", "beta", "gamma", "delta"};
+/* second naming: names that differ only in letter case (PDB-chain style), still pairwise distinct */
+static const char* NAMES_B[MAXK] = {"1abcA", "1abca", "1ABCa", "1aBca"};
+static const char** NAMES = NAMES_A;
 
 /* rows of an alignment with `extra` all-gap columns inserted (bit 0: front, bit 1: after first column, bit 2: end) */
 static void render(const struct setdef* s, const struct aln* a, int extra, char rows[MAXK][MAXCOL + 8])
@@ -269,6 +272,7 @@ int vh_case(uint64_t id, int tier)
         }
         s = &SETS[si];
         r = &ALN[si][id];
+        NAMES = (id % 2) ? NAMES_B : NAMES_A;
         for(ti = 0; ti < NALN[si]; ti++){
                 const struct aln* t = &ALN[si][ti];
                 /* a different (row order, all-gap columns, format) variant per pair, cycling through all of them;
